@@ -468,6 +468,25 @@ def rule_o9(repo):
                 if any(isinstance(t, ast.Name) and t.id in picked for t in n.ast.targets) and not (isinstance(n.ast.value, ast.Constant) and n.ast.value.value is None):
                     targets.append(n)
             seen = set()
+            # the partner may be selected by the filter of a comprehension (contras = [v.deriv for v in bucket if .. and c_v < -c_f])
+            from ..flow import flow_of as _fo9
+            fl9 = _fo9(f.node)
+            reach9 = set()
+            for nm in picked:
+                reach9 |= fl9.names_closure(ast.Name(id=nm, ctx=ast.Load()))
+            for nm in sorted(reach9):
+                for comp in [x for _k, rhs in fl9.defs.get(nm, []) for x in ast.walk(rhs) if isinstance(x, (ast.ListComp, ast.GeneratorExp))]:
+                    for cnd in [c_ for g_ in comp.generators for c_ in g_.ifs]:
+                        for cj in (cnd.values if isinstance(cnd, ast.BoolOp) and isinstance(cnd.op, ast.And) else [cnd]):
+                            cp = compare_parts(cj)
+                            if not cp or cp[0] not in ORDER or isinstance(cp[1], ast.Constant) or isinstance(cp[2], ast.Constant) or src(cj) in seen:
+                                continue
+                            seen.add(src(cj))
+                            strict = cp[0] in (ast.Lt, ast.Gt)
+                            res.add('%s :: %s :: contradiction-by(%s)' % (m.rel, f.qualname, src(cj, 50)), strict,
+                                    'strict comparison' if strict else
+                                    'line %d: the partner of the contradiction reported at line %d is selected by `%s`, which also holds when the two bounds meet' % (
+                                        cj.lineno, r.lineno, src(cj, 60)), '%s:%d' % (m.rel, cj.lineno))
             for tgt in targets:
                 if tgt is None:
                     continue
